@@ -50,7 +50,7 @@ reg(C15(
     coq_targets=["Cache/MultiCache.vo", "Cache/C14Check.vo", "Latency/LatencyModel.vo", "Cache/C15Check.vo",
                  "Latency/LatencyProofs.vo", "Cache/C14Proofs.vo", "Cache/C15Proofs.vo", "Cache/C15Count.vo", "Props/C15.vo"],
     assumptions=[
-        "single goroutine per target for the counter laws (the concurrency clause is a lockset annotation, see C15_no_unprotected_access_*)",
+        "single goroutine per target for the counter laws (the concurrency clause is a lockset annotation, see C15_no_unprotected_access)",
         "one clock reading per API call; the clock (cache.Now, latency.Now) does not run backwards",
         "no int64 overflow of accumulated durations / counters (model uses unbounded Z)",
         "cache created without latency windows, server name and excluded metadata; latency.Latency is driven directly for the window statistics",
@@ -59,5 +59,5 @@ reg(C15(
     ],
     modelled=["cache/cache.go counter updates on every branch of Target.GnmiUpdate / gnmiUpdate / gnmiRemove, checkTimestamp, updateMeta, updateSize, Reset (CacheModel.v + MultiCache.v); metadata/metadata.go; latency/latency.go: New, Compute, UpdateReset, UpdateLast, window add / slide / isCovered / setAvg / setMax / setMin (LatencyModel.v)"],
 ),
-    level_text="Theorems in coq/Props/C15.v state over the Gallina models of cache.Target and latency.Latency, for all histories: leaf count = stored non-metadata leaves and moves by added - deleted; every ingest unit lands in exactly one of updated/suppressed/stale/future or is returned as an error, empty notifications in empty; the latest timestamp never decreases and moves only to an accepted tracked timestamp; every exported latency statistic lies within the sample bounds of the retained slots (average within the precision); the lockset annotation of the shared fields is checked (meta, lat, tree protected; sync, ts refuted = known finding). leaf count = number of leaves stored outside meta for all histories (false before the fix ccc875e this check led to). The models are tied to the Go code by a correspondence run evaluated inside Coq, which also applies the executable specification to the implementation's own counters, Query results and exported statistics.",
+    level_text="Theorems in coq/Props/C15.v state over the Gallina models of cache.Target and latency.Latency, for all histories: leaf count = stored non-metadata leaves and moves by added - deleted; every ingest unit lands in exactly one of updated/suppressed/stale/future or is returned as an error, empty notifications in empty; the latest timestamp never decreases and moves only to an accepted tracked timestamp; every exported latency statistic lies within the sample bounds of the retained slots (average within the precision); every conflicting pair of access sites of the shared fields (sync, ts, metadata values, latency accumulators, tree) shares a mutex over the lockset annotation (true since b865e5c; a -race build of a refresh||update workload is supporting evidence in the thorough tier). The leaf-count equation was false before the fix ccc875e this check led to. The models are tied to the Go code by a correspondence run evaluated inside Coq, which also applies the executable specification to the implementation's own counters, Query results and exported statistics.",
     level_note="Trusted: Coq kernel + vm_compute, the hand-written models (validated only on the explored cases), the Go harness projection, that the lockset annotation matches the code (race detector run in the thorough tier as supporting evidence only).")
